@@ -1,5 +1,5 @@
 """C19 Allocation failure at any point is handled cleanly - lifecycle typestate and raw-allocation protection."""
-from .. import frontend as F, ast as A, cfg as C, util as U, kinds as K
+from .. import frontend as F, ast as A, cfg as C, util as U, kinds as K, guards as G
 
 EXPLANATION = ('Exception-safety typestate over the structural CFG: (R19.1) after basic_json::destroy() the object is in a destroyed state '
                'until it is re-initialised by construct<S>() or a whole-object memcpy; no call that may throw (callee not noexcept) may be '
@@ -102,12 +102,269 @@ def r19_4(chk, tier):
         if bad: chk.fail('R19.4', site, fn['file'], bad.get('l'), 'mutation %s is not dominated by the unwinder construction' % A.text(bad)[:60], None, fn['q'])
         else: chk.ok('R19.4', site, {'function': fn['q'], 'unwinder_line': unw.line})
 
+ASSERT_MACROS = ('JSONCONS_ASSERT', 'JSONCONS_UNREACHABLE', 'JSONCONS_THROW')
+
+class Throws:
+    """May a function let an exception out?  Declared noexcept -> no; body available -> inferred from its throw expressions, non-placement
+    new and callees (cycles assumed quiet); body unavailable -> yes unless it is a builtin.  Throws of failed internal assertions
+    (JSONCONS_ASSERT) are not counted: they are not allocation failures."""
+    def __init__(self, facts):
+        self.facts = facts; self.memo = {}; self.by_id = {}
+        for f in facts.functions:
+            if f.get('body') is not None: self.by_id.setdefault(f['id'], f)
+
+    def ops(self, fn, ast, in_assert=False):
+        """(node, why) for every operation inside ast that may throw."""
+        out = []
+        def rec(x, ia):
+            if x is None: return
+            ia = ia or x.get('m') in ASSERT_MACROS[:2]
+            k = x.get('k')
+            if k == 'LambdaExpr': return
+            if k == 'CXXThrowExpr':
+                if not ia: out.append((x, 'throw'))
+                return
+            if k == 'CXXNewExpr' and not x.get('placement'):
+                out.append((x, 'operator new'))
+            if k in A.CALLS or k in ('CXXConstructExpr', 'CXXTemporaryObjectExpr'):
+                if not x.get('cnothrow') and not x.get('builtin') and (x.get('cq') or k in A.CALLS) and not ia:
+                    nm = A.callee_name(x) or (x.get('cq') or '?').split('::')[-1]
+                    cal = self.by_id.get(x.get('cid')) if x.get('cid') is not None else None
+                    if cal is None and k in A.CALLS: cal = self.facts.callee(fn, x)
+                    if nm in ('deallocate', 'destroy', 'memcpy', 'memset', 'memmove'): pass
+                    elif cal is not None:
+                        if self.may_throw(cal): out.append((x, 'call of %s' % nm))
+                    elif x.get('cq') or x.get('cid') is not None: out.append((x, 'call of %s (no body, not noexcept)' % nm))
+            for c in A.children(x): rec(c, ia)
+        rec(ast, in_assert)
+        return out
+
+    def may_throw(self, f):
+        if f.get('nothrow'): return False
+        k = f['id']
+        if k in self.memo: return self.memo[k]
+        self.memo[k] = False           # cycle: assume quiet
+        if f.get('body') is None: r = True
+        else:
+            r = bool(self.ops(f, f['body']))
+            for ini in f.get('inits') or []:
+                if ini.get('init') is not None and self.ops(f, ini['init']): r = True
+        self.memo[k] = r
+        return r
+
+def r19_2(chk, facts):
+    chk.rule('R19.2', 'raw allocation protection: while a block obtained from allocate() is held only by a local pointer, no operation that may '
+                      'throw (inferred from bodies; noexcept respected; internal assertions excluded) executes outside a try whose catch-all '
+                      'handler deallocates the block and rethrows', floor=5)
+    from . import c05
+    th = Throws(facts)
+    n = 0; seen = set()
+    for fn in facts.functions:
+        if fn.get('body') is None or fn.get('dep') or not fn['file'].startswith('include/jsoncons/'): continue
+        if fn['file'].endswith(('bigint.hpp',)) : pass
+        allocs = [c for c in A.calls_in(fn['body'], no_lambda=True) if A.callee_name(c) == 'allocate']
+        if not allocs or fn['id'] in seen: continue       # every instantiation: what may throw depends on the argument types
+        seen.add(fn['id'])
+        chk.analysed(fn)
+        g = C.CFG(fn['body'])
+        pm = c05.parent_map(fn['body'])
+        for i, c in enumerate(allocs):
+            nd = g.node_of(c)
+            if nd is None: continue
+            # the local (or member) that receives the block
+            holder = None
+            if nd.ast.get('k') == 'DeclStmt':
+                for d in nd.ast.get('decls') or []:
+                    if d.get('init') is not None and any(y is c for y in A.walk(d['init'])): holder = ('local', d.get('n'))
+            am = U.assigned_member(nd.ast)
+            if holder is None and am and any(y is c for y in A.walk(am[1])):
+                l = A.strip(nd.ast.get('lhs') if nd.ast.get('k') == 'BinaryOperator' else None, casts=True)
+                holder = ('member' if (l is not None and l.get('k') == 'MemberExpr') else 'local', am[0])
+            n += 1
+            site = U.site(fn, 'allocate#%d' % (i + 1))
+            if holder is None:
+                chk.fail('R19.2', site, fn['file'], c.get('l'), '%s: the result of allocate() is not stored' % fn['n'], None, fn['q']); continue
+            if holder[0] == 'member':
+                # owned by the object from the first moment (its destructor releases it)
+                chk.ok('R19.2', site, {'line': c.get('l'), 'held_by': 'member %s' % holder[1]}); continue
+            name = holder[1]
+            def protected(x):
+                cur = pm.get(id(x))
+                child = x
+                while cur is not None:
+                    if cur.get('k') == 'CXXTryStmt' and cur.get('body') is not None and any(y is child or y is x for y in A.walk(cur['body'])):
+                        for h in cur.get('handlers') or []:
+                            txt_calls = [cc for cc in A.calls_in(h.get('body') or {}) if A.callee_name(cc) == 'deallocate' and any(A.ref_name(a) == name for a in cc.get('args') or [])]
+                            rethrow = any(y.get('k') == 'CXXThrowExpr' for y in A.walk(h.get('body') or {}))
+                            if txt_calls and rethrow and h.get('catch_all', True): return True
+                    child = cur; cur = pm.get(id(cur))
+                return False
+            def in_assert(x):
+                cur = x
+                while cur is not None:
+                    if cur.get('m') in ASSERT_MACROS[:2]: return True
+                    cur = pm.get(id(cur))
+                return False
+            bad = None
+            # path walk with one correlation: pointers known to be non-null (assigned from the block) decide `p == nullptr` tests
+            seen_n = set(); stack = [(s2, frozenset()) for s2 in nd.succ]
+            while stack and bad is None:
+                x, nonnull = stack.pop()
+                if (x.id, nonnull) in seen_n: continue
+                seen_n.add((x.id, nonnull))
+                if x.kind == 'edge' and isinstance(x.ast, dict):
+                    cmp_ = G.comparison(x.ast)
+                    if cmp_ and cmp_[0] in ('==', '!=') and A.ref_name(cmp_[1]) in nonnull and (A.strip(cmp_[2], casts=True) or {}).get('k') in ('CXXNullPtrLiteralExpr', 'GNUNullExpr') :
+                        if (cmp_[0] == '==') == bool(x.label): continue       # infeasible: the pointer is not null
+                if x.kind in ('stmt', 'cond', 'return', 'switch') and isinstance(x.ast, dict):
+                    am2 = U.assigned_member(x.ast)
+                    if am2 and (A.ref_name(am2[1]) == name or A.ref_name(am2[1]) in nonnull or any(A.ref_name(a) == name for cc in A.calls_in(am2[1]) for a in cc.get('args') or [])):
+                        nonnull = nonnull | {am2[0]}
+                    if x.ast.get('k') == 'DeclStmt':
+                        for d in x.ast.get('decls') or []:
+                            if d.get('init') is not None and any(A.ref_name(a) == name for cc in A.calls_in(d['init']) for a in cc.get('args') or []): nonnull = nonnull | {d.get('n')}
+                    released = any(A.callee_name(cc) == 'deallocate' and any(A.ref_name(a) == name for a in cc.get('args') or []) for cc in A.calls_in(x.ast))
+                    for opn, why in ([] if in_assert(x.ast) else th.ops(fn, x.ast)):
+                        if A.callee_name(opn) == 'deallocate': continue
+                        if not protected(opn): bad = (opn, why); break
+                    if released or x.kind == 'return': continue
+                if x.kind == 'catch': continue
+                stack.extend((s2, nonnull) for s2 in x.succ)
+            if bad is None: chk.ok('R19.2', site, {'line': c.get('l'), 'held_by': name})
+            else: chk.fail('R19.2', site, fn['file'], bad[0].get('l'), '%s: the block from allocate() at line %s is held only by `%s` when %s at line %s may throw, outside a try that deallocates it: the block leaks' % (
+                fn['n'], c.get('l'), name, bad[1], bad[0].get('l')), {'allocation': c.get('l'), 'operation': bad[1]}, fn['q'])
+    chk.require(n >= 5, 'R19.2: only %d raw allocations found' % n)
+
+def r19_3(chk, facts):
+    """Byte balance of heap_string: the size handed to deallocate() equals the size the block was requested with."""
+    from .. import linear as L
+    chk.rule('R19.3', 'byte balance: heap_string_factory::destroy returns the block with the size create() requested (the stored fields '
+                      'length_/align_pad_ substituted by what create() stored in them; symbolic comparison of the size expressions), and every '
+                      'constant-size allocate(k) of basic_json is paired with deallocate(.., k)', floor=4)
+    cr = [f for f in facts.functions if f['n'] == 'create' and f['file'].endswith('heap_string.hpp') and f.get('body') is not None and not f.get('dep')]
+    de = [f for f in facts.functions if f['n'] == 'destroy' and f['file'].endswith('heap_string.hpp') and f.get('body') is not None and not f.get('dep')]
+    chk.require(cr and de, 'heap_string_factory::create/destroy not found')
+    def render(form):
+        return L.show(form)
+    def form(e, subst, fields):
+        """Linear form with opaque atoms; `subst` maps local names to expressions/constants, `fields` maps stored field names to locals."""
+        s2 = A.strip(e, casts=True)
+        if s2 is None: return None
+        c = A.const(s2)
+        if c is not None: return {1: c}
+        k = s2.get('k')
+        if k == 'DeclRefExpr':
+            n = s2.get('n')
+            if n in subst:
+                v = subst[n]
+                return {1: v} if isinstance(v, int) else form(v, {k2: v2 for k2, v2 in subst.items() if k2 != n}, fields)
+            return {n: 1}
+        if k == 'MemberExpr':
+            n = s2.get('n')
+            if n in fields: return form({'k': 'DeclRefExpr', 'n': fields[n]}, subst, fields)
+            return {'field:' + n: 1}
+        if k == 'BinaryOperator' and s2.get('op') in ('+', '-'):
+            a, b = form(s2.get('lhs'), subst, fields), form(s2.get('rhs'), subst, fields)
+            if a is None or b is None: return None
+            return L.add(a, b, 1 if s2['op'] == '+' else -1)
+        if k == 'BinaryOperator' and s2.get('op') == '*':
+            a, b = form(s2.get('lhs'), subst, fields), form(s2.get('rhs'), subst, fields)
+            if a is None or b is None: return None
+            if set(a) <= {1}: return {v: c2 * a.get(1, 0) for v, c2 in b.items()}
+            if set(b) <= {1}: return {v: c2 * b.get(1, 0) for v, c2 in a.items()}
+            return {'(%s)*(%s)' % (render(a), render(b)): 1}
+        if k == 'UnaryExprOrTypeTraitExpr': return {'sizeof#%s' % s2.get('at'): 1}
+        if k in A.CALLS:
+            args = [form(a, subst, fields) for a in s2.get('args') or []]
+            return {'%s(%s)' % (A.callee_name(s2), ', '.join(render(a) if a is not None else '?' for a in args)): 1}
+        return None
+    n = 0
+    for fc in U.one_per_inst(cr)[:1]:
+        fd = next((d for d in de if d.get('cls') == fc.get('cls')), de[0])
+        chk.analysed(fc); chk.analysed(fd)
+        # create(): local initialisers, field stores, allocations
+        inits = {}; fields = {}; assigns = {}
+        for x in A.walk_no_lambda(fc['body']):
+            if x.get('k') == 'VarDecl' and x.get('init') is not None: inits[x['n']] = x['init']
+            if x.get('k') == 'BinaryOperator' and x.get('op') == '=':
+                l = A.strip(x.get('lhs'), casts=True)
+                if l is not None and l.get('k') == 'MemberExpr' and A.ref_name(x.get('rhs')): fields[l.get('n')] = A.ref_name(x.get('rhs'))
+                elif l is not None and l.get('k') == 'DeclRefExpr': assigns.setdefault(l.get('n'), []).append(x)
+        pm = __import__('jcsa.props.c05', fromlist=['x']).parent_map(fc['body'])
+        allocs = [c for c in A.calls_in(fc['body'], no_lambda=True) if A.callee_name(c) == 'allocate' and c.get('args')]
+        chk.require(len(allocs) >= 1 and fields, 'heap_string create(): allocations / field stores not recognised')
+        # destroy(): the size passed to deallocate
+        dinits = {x['n']: x['init'] for x in A.walk_no_lambda(fd['body']) if x.get('k') == 'VarDecl' and x.get('init') is not None}
+        deals = [c for c in A.calls_in(fd['body'], no_lambda=True) if A.callee_name(c) == 'deallocate' and len(c.get('args') or []) >= 2]
+        chk.require(deals, 'heap_string destroy(): deallocate not found')
+        dform = form(deals[0]['args'][1], dinits, fields)
+        chk.require(dform is not None, 'heap_string destroy(): size expression not understood')
+        def block_of(x):
+            cur = pm.get(id(x))
+            while cur is not None and cur.get('k') != 'CompoundStmt': cur = pm.get(id(cur))
+            return cur
+        for i, a in enumerate(allocs):
+            n += 1
+            # locals that are re-assigned only in the block of another allocation keep their initial value here
+            sub = {}
+            for v, init in inits.items():
+                reass = assigns.get(v, [])
+                if v in [fields[f] for f in fields]:
+                    if all(block_of(r) is not block_of(a) and any(block_of(r) is block_of(o) for o in allocs if o is not a) for r in reass) and A.const(init) is not None:
+                        sub[v] = A.const(init)
+                    # otherwise the stored value is the local itself (symbolic)
+                elif not reass: sub[v] = init
+            aform = form(a['args'][0], sub, {})
+            want = form(deals[0]['args'][1], dict(dinits), fields)
+            # evaluate the deallocation size under the same knowledge about the stored locals
+            want = form(deals[0]['args'][1], dict(list(dinits.items()) + [(v, c) for v, c in sub.items() if isinstance(c, int)]), fields)
+            def subst_consts(fm):
+                out = {}
+                for k2, c2 in fm.items():
+                    if k2 in sub and isinstance(sub[k2], int): out[1] = out.get(1, 0) + c2 * sub[k2]
+                    else: out[k2] = out.get(k2, 0) + c2
+                return {k2: c2 for k2, c2 in out.items() if c2 != 0 or k2 == 1}
+            # the requested size with locals expanded, the returned size with stored fields mapped back to those locals
+            a2 = {k2: c2 for k2, c2 in subst_consts(aform or {}).items() if c2 != 0}
+            w2 = {k2: c2 for k2, c2 in subst_consts(form(deals[0]['args'][1], {k3: v3 for k3, v3 in list(dinits.items())}, fields) or {}).items() if c2 != 0}
+            # expand remaining create()-locals with initialisers on both sides
+            def expand(fm):
+                out = {}
+                for k2, c2 in fm.items():
+                    if k2 in inits and k2 not in sub and not assigns.get(k2):
+                        f2 = form(inits[k2], {}, {})
+                        for k3, c3 in (f2 or {k2: 1}).items(): out[k3] = out.get(k3, 0) + c2 * c3
+                    else: out[k2] = out.get(k2, 0) + c2
+                return {k2: c2 for k2, c2 in out.items() if c2 != 0}
+            a3, w3 = expand(a2), expand(w2)
+            site = U.site(fc, 'allocate#%d size' % (i + 1))
+            if a3 == w3: chk.ok('R19.3', site, {'requested': L.show(a3), 'returned': L.show(w3)})
+            else: chk.fail('R19.3', site, fc['file'], a.get('l'), 'heap_string: the block requested with size `%s` at line %s is returned by destroy() with size `%s`' % (
+                L.show(a3), a.get('l'), L.show(w3)), {'requested': L.show(a3), 'returned': L.show(w3)}, fc['q'])
+    # constant-size pairs in basic_json (allocate(alloc, 1) / deallocate(alloc, p, 1))
+    consts = {'allocate': set(), 'deallocate': set()}
+    seen = set()
+    for fn in facts.functions:
+        if fn.get('body') is None or fn.get('dep') or not fn['file'].endswith('basic_json.hpp') or (fn['file'], fn['l']) in seen: continue
+        seen.add((fn['file'], fn['l']))
+        for c in A.calls_in(fn['body'], no_lambda=True):
+            nm = A.callee_name(c)
+            if nm in consts and 'allocator_traits' in (c.get('cq') or ''):
+                v = A.const((c.get('args') or [None])[-1])
+                n += 1
+                site = U.site(fn, '%s count@%d' % (nm, c.get('l', 0) - fn['l']))
+                if v == 1: chk.ok('R19.3', site, {'count': v})
+                else: chk.fail('R19.3', site, fn['file'], c.get('l'), '%s: %s with element count %s; the storage objects are allocated and released one at a time' % (fn['n'], nm, v if v is not None else A.text((c.get('args') or [None])[-1])), None, fn['q'])
+    chk.require(n >= 4, 'R19.3: only %d allocation sizes compared' % n)
+
 def run(chk, tier, only_rule=None):
     chk.explanation = EXPLANATION
     chk.not_decided = NOT_DECIDED
     facts = F.load(['core'], tier)
     chk.units = ['core']
     r19_1(chk, facts)
+    r19_2(chk, facts)
+    r19_3(chk, facts)
     r19_4(chk, tier)
     from . import c15
     c15.r15_6(chk, F.load(['patch'], tier))     # an allocation failure inside apply_patch leaves the state at begin: the destructor must roll back
